@@ -9,3 +9,10 @@ Open Scope N_scope.
 Lemma gen_cfg_fixed :
   the_cfg = cF /\ gen_put_order_ok = true /\ gen_ckpt_order_ok = true.
 Proof. repeat split; reflexivity. Qed.
+
+(* the tail repair done by open must follow EVERY record length the writer can produce (the writer
+   and replay have no bound below u32::MAX): the model's [repair] / [scan_end] has no bound, and the
+   theorems are about that model.  A length cap in complete_prefix_len would cut a valid large record
+   -- and everything after it -- off the log on the next open. *)
+Lemma scan_follows_every_length : gen_scan_cap = None.
+Proof. reflexivity. Qed.
